@@ -61,6 +61,10 @@ func (lv LiteralValue) CompletionAtPos(ctx context.Context, pos hcl.Pos) []lang.
 		// such as dot, opening bracket etc.
 		editRange.End = pos
 	}
+	if pos.Byte < editRange.Start.Byte {
+		// cursor between '=' and the expression
+		editRange.Start = pos
+	}
 
 	cd := lv.cons.EmptyCompletionData(ctx, 1, 0)
 	return []lang.Candidate{
